@@ -1,5 +1,5 @@
 (* C10 - the per-association invariant of Model/Teardown.v and the tactics that push it through one step *)
-From Coq Require Import NArith String List Bool Arith Lia.
+From Coq Require Import NArith String List Bool Arith Lia Permutation.
 From UPF Require Import Base.LTS Model.Teardown.
 Import ListNotations.
 Open Scope list_scope.
@@ -31,17 +31,47 @@ Proof. cbn. rewrite N.eqb_refl. reflexivity. Qed.
    as soon as it takes hbMu, because pConn.shutdown is closed) *)
 Definition hb_cancelled (a : assoc) : Prop := a_hbreg a = true -> cclosed (a_hbc a) = true.
 
-Definition Body (sess : list N) (a : assoc) (t : thr) : Prop :=
+(* every session ever installed is either still in the store or has been deleted from the datapath once *)
+Definition accounted (a : assoc) : Prop := Permutation (a_del a ++ a_store a) (a_inst a).
+
+Lemma memN_in x l : memN x l = true -> In x l.
+Proof.
+  induction l as [|y l IH]; cbn; [discriminate|]. intros H. apply orb_true_iff in H.
+  destruct H as [H|H]; [left; apply N.eqb_eq in H; congruence | right; apply IH; exact H].
+Qed.
+Lemma perm_remove_first x l : In x l -> Permutation l (x :: remove_first x l).
+Proof.
+  induction l as [|y l IH]; cbn; [tauto|]. intros [->|H].
+  - rewrite N.eqb_refl. reflexivity.
+  - destruct (N.eqb x y) eqn:E; [apply N.eqb_eq in E; subst; reflexivity|].
+    rewrite perm_swap. constructor. apply IH. exact H.
+Qed.
+(* a Session Deletion Request handled by the receive loop *)
+Lemma perm_del x de st inst : memN x st = true -> Permutation (de ++ st) inst ->
+  Permutation ((de ++ [x]) ++ remove_first x st) inst.
+Proof.
+  intros Hm Hp. rewrite <- Hp, <- app_assoc. cbn. apply Permutation_app_head.
+  apply memN_in in Hm. symmetry. apply perm_remove_first. exact Hm.
+Qed.
+(* a Session Establishment Request handled by the receive loop *)
+Lemma perm_add (x : N) de st inst : Permutation (de ++ st) inst -> Permutation (de ++ (st ++ [x])) (inst ++ [x]).
+Proof. intros Hp. rewrite (app_assoc de st [x]). apply Permutation_app_tail. exact Hp. Qed.
+
+Definition Body (a : assoc) (t : thr) : Prop :=
   match t_pc t with
-  | 0 => a_del a = [] /\ a_store a = sess /\ cclosed (a_shut a) = false
-  | 1 => a_del a = [] /\ a_store a = sess /\ cclosed (a_shut a) = true
-  | 2 => a_del a = [] /\ a_store a = sess /\ cclosed (a_shut a) = true /\ hb_cancelled a
-  | 3 => exists x r, t_it t = x :: r /\ a_store a = x :: r /\ a_del a ++ x :: r = sess /\ cclosed (a_shut a) = true
-                     /\ hb_cancelled a
-  | 4 => exists x r d, t_it t = x :: r /\ a_store a = x :: r /\ a_del a = d ++ [x] /\ d ++ x :: r = sess
-                       /\ cclosed (a_shut a) = true /\ hb_cancelled a
-  | 5 | 6 => a_del a = sess /\ a_store a = [] /\ cclosed (a_shut a) = true /\ hb_cancelled a
-  | 7 => a_del a = sess /\ a_store a = [] /\ cclosed (a_shut a) = true /\ hb_cancelled a /\ a_sock a = true
+  | 0 => accounted a /\ cclosed (a_shut a) = false /\ a_hmu a = false
+  | 1 => accounted a /\ cclosed (a_shut a) = true /\ a_hmu a = false
+  | 2 => accounted a /\ cclosed (a_shut a) = true /\ hb_cancelled a /\ a_hmu a = false
+  | 3 => accounted a /\ cclosed (a_shut a) = true /\ hb_cancelled a /\ a_hmu a = true
+  | 4 => exists x r, t_it t = x :: r /\ a_store a = x :: r /\ accounted a /\ cclosed (a_shut a) = true
+                     /\ hb_cancelled a /\ a_hmu a = true
+  | 5 => exists x r d, t_it t = x :: r /\ a_store a = x :: r /\ a_del a = d ++ [x]
+                       /\ Permutation (d ++ x :: r) (a_inst a)
+                       /\ cclosed (a_shut a) = true /\ hb_cancelled a /\ a_hmu a = true
+  | 6 | 7 => a_store a = [] /\ Permutation (a_del a) (a_inst a) /\ cclosed (a_shut a) = true /\ hb_cancelled a
+             /\ a_hmu a = true
+  | 8 => a_store a = [] /\ Permutation (a_del a) (a_inst a) /\ cclosed (a_shut a) = true /\ hb_cancelled a
+         /\ a_hmu a = true /\ a_sock a = true
   | _ => False
   end.
 
@@ -54,12 +84,13 @@ Definition fn_ok (a : assoc) (r : role) : Prop :=
   (t_fn (get_thr a r) = FDo /\ a_once a = ORun r)
   \/ (t_fn (get_thr a r) = home r /\ a_once a <> ORun r /\ t_pc (get_thr a r) < code_len r).
 
-Definition Data (sess : list N) (a : assoc) : Prop :=
+Definition Data (a : assoc) : Prop :=
   match a_once a with
-  | ONew => a_del a = [] /\ a_store a = sess /\ cclosed (a_shut a) = false
+  | ONew => accounted a /\ cclosed (a_shut a) = false /\ a_hmu a = false
   | ORun r0 => is_assoc_role r0 = true /\ t_st (get_thr a r0) = TRunning /\ t_ret (get_thr a r0) = once_ret r0
-               /\ Body sess a (get_thr a r0)
-  | ODone => a_del a = sess /\ a_store a = [] /\ cclosed (a_shut a) = true /\ hb_cancelled a /\ a_sock a = true
+               /\ Body a (get_thr a r0)
+  | ODone => a_store a = [] /\ Permutation (a_del a) (a_inst a) /\ cclosed (a_shut a) = true /\ hb_cancelled a
+             /\ a_sock a = true /\ a_hmu a = false
   end.
 
 (* connTimeout holds at most the one value the reader sends before it returns *)
@@ -114,23 +145,33 @@ Definition life_ok (a : assoc) : Prop :=
   /\ (early_t (a_fst a) = true -> a_once a = ONew)
   /\ (bg_t (a_fst a) = false -> crt_t (a_fst a) = true).
 
+(* the sessions of the configuration come first in the list of installed sessions *)
+Definition inst_ok (sess : list N) (a : assoc) : Prop := exists extra, a_inst a = sess ++ extra.
+
+(* the reader is about to handle a datagram only if there is one (nobody else takes datagrams once it runs) *)
+Definition rd_ok (a : assoc) : Prop :=
+  (t_st (a_rd a) = TRunning -> t_fn (a_rd a) = FReader -> t_pc (a_rd a) = 1 -> a_inbox a <> [])
+  /\ (t_st (a_rd a) = TNotStarted -> t_pc (a_rd a) = 0).
+
 Definition AInv (sess : list N) (a : assoc) : Prop :=
-  fn_ok a RRd /\ fn_ok a RSel /\ fn_ok a RHb /\ fn_ok a RFst /\ Data sess a /\ tmo_ok a /\ hb_ok a /\ life_ok a.
+  fn_ok a RRd /\ fn_ok a RSel /\ fn_ok a RHb /\ fn_ok a RFst /\ Data a /\ tmo_ok a /\ hb_ok a /\ life_ok a
+  /\ inst_ok sess a /\ rd_ok a.
 
 (* bookkeeping for "forgotten": what one step of an association thread does to pConnDone and pConns, and whether
    the association has reported its address (rep) *)
 Definition at_pc (a : assoc) (r : role) (f : fname) (p : nat) : bool :=
   fname_eqb (t_fn (get_thr a r)) f && Nat.eqb (t_pc (get_thr a r)) p.
 Definition rep (a : assoc) : bool :=
-  match a_once a with ODone => true | ORun r0 => Nat.leb 6 (t_pc (get_thr a r0)) | ONew => false end.
+  match a_once a with ODone => true | ORun r0 => Nat.leb 7 (t_pc (get_thr a r0)) | ONew => false end.
 Definition delta (me : N) (r : role) (a : assoc) (nd nd' : node) (a2 : assoc) : Prop :=
-  cbuf (n_pcd nd') = (if at_pc a r FDo 5 then cbuf (n_pcd nd) ++ [me] else cbuf (n_pcd nd))
+  cbuf (n_pcd nd') = (if at_pc a r FDo 6 then cbuf (n_pcd nd) ++ [me] else cbuf (n_pcd nd))
   /\ n_map nd' = (if at_pc a r FFirst 1 || at_pc a r FFirst 3 then me :: remove_all me (n_map nd) else n_map nd)
   /\ n_created nd' + (if crt a then 1 else 0) = n_created nd + (if crt a2 then 1 else 0)
   /\ (crt a = true -> crt a2 = true)
   /\ (n_busy nd' = true -> n_busy nd = true \/ n_lsock nd = false)
   /\ (crt a = false -> crt a2 = true -> n_lsock nd = false)
-  /\ rep a2 = (rep a || at_pc a r FDo 5)
+  /\ rep a2 = (rep a || at_pc a r FDo 6)
+  /\ (a_inst a2 = a_inst a \/ exists x, memN x (a_inst a) = false /\ a_inst a2 = a_inst a ++ [x])
   /\ (t_st (a_fst a) = TFinished -> t_st (a_fst a2) = TFinished).
 
 (* arithmetic leaves: closed comparisons by computation, the rest by lia on the goal alone (lia is slow on the
@@ -165,6 +206,16 @@ Ltac tmo_leaf :=
     first [ discriminate | left; congruence | right; split; congruence | left; reflexivity ]
   end.
 
+(* accounting of the sessions *)
+Ltac perm_leaf :=
+  match goal with |- Permutation _ _ => idtac end;
+  solve [ assumption
+        | apply perm_del; assumption
+        | apply perm_add; assumption
+        | rewrite <- app_assoc; cbn; assumption
+        | rewrite app_nil_r in *; assumption
+        | match goal with H : Permutation (?d ++ []) _ |- _ => rewrite app_nil_r in H; exact H end ].
+
 (* forward chaining over the trivial implications of the invariant *)
 Ltac fwd :=
   repeat match goal with
@@ -198,7 +249,8 @@ Ltac status_leaf :=
   solve [ assumption | congruence | intuition (try discriminate; try congruence) ].
 
 Ltac finish_inv :=
-  unfold delta in *; unfold AInv, fn_ok, Data, Body, tmo_ok, hb_ok, life_ok, not_started, hb_cancelled, crt, code_len, once_ret, rep, at_pc in *;
+  unfold delta in *; unfold AInv, fn_ok, Data, Body, tmo_ok, hb_ok, life_ok, inst_ok, rd_ok, accounted, not_started, hb_cancelled, crt, code_len,
+         once_ret, rep, at_pc in *;
   cbn in *; phase_unfold;
   repeat match goal with
          | H : _ /\ _ |- _ => destruct H
@@ -208,7 +260,7 @@ Ltac finish_inv :=
   repeat match goal with H : t_st ?t = _ |- context [t_st ?t] => rewrite H end;
   try match goal with H : bg_t ?t = true -> _ |- _ => is_var t; destruct (bg_t t) eqn:? end;
   try (exfalso; match goal with H : true = true -> _ /\ _ |- _ => clear - H; destruct (H eq_refl) as ([?|?] & [?|?] & [?|?]); discriminate end);
-  repeat match goal with |- context [match ?d with DRelease => _ | DSetup => _ | DOther => _ end] => is_var d; destruct d end;
+  repeat match goal with |- context [match ?d with _ => _ end] => is_var d; match type of d with dgram => destruct d end end;
   repeat split;
   first [ assumption | reflexivity | discriminate | congruence | arith_leaf | solve [intros; auto 3]
         | (left; split; congruence) | (right; split; congruence)
@@ -216,12 +268,18 @@ Ltac finish_inv :=
         | (rewrite ?orb_false_r, ?orb_true_r; reflexivity)
         | (let He := fresh in intros He; apply early_bg in He; congruence)
         | fnok_leaf
+        | perm_leaf
+        | (left; reflexivity)
+        | (right; eexists; split; [eassumption | reflexivity])
+        | (eexists; reflexivity)
+        | (eexists; rewrite <- app_assoc; reflexivity)
         | solve [intros; match goal with E : _ || _ = false |- _ => apply orb_false_elim in E; destruct E end;
                  first [assumption | congruence | (left; assumption) | (right; assumption)]]
         | solve [intros; first [discriminate | congruence | (left; assumption)]]
         | tmo_leaf
         | solve [intros ? [?|?]; first [discriminate | congruence]]
         | solve [fwd; first [assumption | congruence | auto 3]]
+        | solve [intros; fwd; repeat match goal with H : t_st ?t = _ \/ t_st ?t = _ |- _ => destruct H end; congruence]
         | status_leaf
         | idtac ].
 
@@ -229,6 +287,7 @@ Ltac close_rest :=
   try rewrite remove_first_head;
   repeat match goal with |- context [is_nil ?s] => destruct s as [|? ?]; cbn end;
   try tauto; try reflexivity;
+  try (rewrite app_nil_r in *; repeat split; auto; fail);
   try (eexists _, _; repeat split; eauto; fail);
   try (eexists _, _; rewrite <- app_assoc; cbn; repeat split; eauto; fail);
   try (eexists _, _, _; repeat split; eauto; fail).
@@ -240,11 +299,11 @@ Ltac do_script T HT :=
   destruct T as [rst rfn rpc rret rit];
   unfold fn_ok in HT; cbn in HT;
   destruct HT as [[? _]|[_ [? _]]]; [subst rfn|congruence];
-  match goal with Hd : Data _ _ |- _ => unfold Data in Hd; cbn in Hd; destruct Hd as [_ [? [? Hb]]]; unfold Body in Hb; cbn in Hb end;
+  match goal with Hd : Data _ |- _ => unfold Data in Hd; cbn in Hd; destruct Hd as [_ [? [? Hb]]]; unfold Body, accounted in Hb; cbn in Hb end;
   match goal with
   | H : thread_step _ _ _ _ _ _ = _ |- _ =>
     unfold thread_step in H; cbn in H; destruct rst; try discriminate H;
-    do 8 (try destruct rpc as [|rpc]); try (exfalso; assumption); cbn in H;
+    do 9 (try destruct rpc as [|rpc]); try (exfalso; assumption); cbn in H;
     unfold ch_close, ch_send, ch_cancel in H;
     inv_ok; finish_inv; close_rest
   end.
@@ -253,9 +312,9 @@ Ltac do_script T HT :=
 Ltac close_pc :=
   try match goal with
       | H : match t_pc ?t with _ => _ end |- match t_pc ?t with _ => _ end =>
-        destruct (t_pc t) as [|[|[|[|[|[|[|[|?]]]]]]]]; cbn in *; try assumption;
+        destruct (t_pc t) as [|[|[|[|[|[|[|[|[|?]]]]]]]]]; cbn in *; try assumption;
         repeat match goal with H : _ /\ _ |- _ => destruct H | H : exists _, _ |- _ => destruct H end;
-        solve [congruence | exfalso; assumption]
+        solve [congruence | exfalso; assumption | repeat split; first [assumption | congruence | perm_leaf]]
       end.
 
 (* the thread T runs its own function *)
@@ -268,7 +327,7 @@ Ltac home_script T HT :=
   match goal with
   | H : thread_step _ _ _ _ _ _ = _ |- _ =>
     unfold thread_step in H; cbn in H; destruct rst; try discriminate H;
-    do 8 (try destruct rpc as [|rpc]); cbn in H; try discriminate H;
+    do 9 (try destruct rpc as [|rpc]); cbn in H; try discriminate H;
     unfold ch_close, ch_send, ch_cancel, ch_recv in H;
     inv_ok; finish_inv; close_pc
   end.
@@ -292,7 +351,7 @@ Ltac panic_script T HT :=
   match goal with
   | H : thread_step _ _ _ _ _ _ = _ |- _ =>
     unfold thread_step in H; cbn in H; destruct rst; try discriminate H;
-    do 8 (try destruct rpc as [|rpc]); cbn in H; try discriminate H;
+    do 9 (try destruct rpc as [|rpc]); cbn in H; try discriminate H;
     unfold ch_close, ch_send, ch_cancel, ch_recv in H;
     inv_ok; finish_inv
   end.
